@@ -328,7 +328,7 @@ func genC02(x *Ctx) {
 	// (4) random streams, half of them as pairs
 	maxLen := 200
 	if x.Thorough() {
-		maxLen = 70000
+		maxLen = 1500
 	}
 	for i, n := 0, x.N(200000, 4000000); i < n; i++ {
 		x.Case(func(c *Case) {
@@ -366,7 +366,7 @@ func genC02(x *Ctx) {
 		})
 	}
 	// (5) long inputs: big legacy / two-byte blocks and payloads
-	for i, n := 0, x.N(40, 3000); i < n; i++ {
+	for i, n := 0, x.N(40, 1500); i < n; i++ {
 		x.Case(func(c *Case) {
 			r := c.R
 			lim := 3000
